@@ -149,6 +149,8 @@ func runTour(cfg *RunCfg, sysName string, salt int64, keyMode int, tour []Step) 
 		x.Addr = hostStyle(cfg.Addr[5:])
 	case cfg.Addr == "slashes":
 		x.Addr = extraSlashes
+	case strings.HasPrefix(cfg.Addr, "plainhost:"):
+		x.Host = cfg.Addr[10:]
 	}
 	steps := 0
 	for i, st := range tour {
